@@ -699,7 +699,7 @@ class LibMixin:
                 if vals and len(vals) == 1 and isinstance(vals[0], Sym) and "key" not in kw:
                     # max()/min() of a sequence with a symbolic number of items: the empty case raises unless a default is given
                     if "default" not in kw:
-                        nonempty = run.decide(("nonempty", src.term), self.site(node))
+                        nonempty = run.decide(nonempty_term(src.term), self.site(node))
                         if not nonempty:
                             run.emit("raise-site", "ValueError", self.site(node), f"{which}() of a sequence that may be empty")
                             self.throw("ValueError", f"{which}() arg is an empty sequence", node)
@@ -1291,7 +1291,7 @@ class LibMixin:
         if isinstance(o, ListV) and o.may and isinstance(k, int) and not o.items:
             # the list is filled by a loop with a run-time trip count: it may still be empty
             run.emit("raise-site", "IndexError", self.site(node), "subscript of a list that is empty when the loop ran zero times")
-            if run.decide(("nonempty", term_of(o)), self.site(node)):
+            if run.decide(nonempty_term(term_of(o)), self.site(node)):
                 vals = o.may
                 return vals[0] if len(vals) == 1 else Sym(("maybe", tuple(term_of(v) for v in vals)), "any", alts=list(vals))
             self.throw("IndexError", "list index out of range", node)
